@@ -40,6 +40,17 @@ def check(pm: ProgramModel, ctx: Ctx) -> None:
         whole(pm, ctx, mb, entry)
         check_wrapper(pm, ctx, "C15-WRAP", "FMAtomicSets", "get_atomic_sets", "fm_atomic_sets")
         return
+    import ast as _ast
+    recursive = any(isinstance(c, _ast.Call) and ((isinstance(c.func, _ast.Name) and c.func.id == walk.name) or
+                                                  (isinstance(c.func, _ast.Attribute) and c.func.attr == walk.name))
+                    for c in _ast.walk(walk.node))
+    if not recursive:
+        # an explicit stack instead of recursion: there is no recursive call to summarise; the whole-function
+        # evaluation (partition, connectedness through forced relations, co-selection with constraints) decides
+        ctx.unverified("C15-STEP", "shape", loc(walk.unit.path, walk.node), "step check not applicable: the walk is not recursive")
+        whole(pm, ctx, mb, entry)
+        check_wrapper(pm, ctx, "C15-WRAP", "FMAtomicSets", "get_atomic_sets", "fm_atomic_sets")
+        return
     # init --------------------------------------------------------------------------------------
     root = mb.feature("root")
     mb.relation(root, [mb.feature("m")], 1, 1)
@@ -211,10 +222,10 @@ def whole(pm: ProgramModel, ctx: Ctx, mb: ModelBuilder, entry: Any) -> None:
     with_constraints(pm, ctx, mb, entry)
     """Whole function on abstract trees: partition, no empty set, sets connected through forced
     relations only, mandatory children with their parent."""
-    from .c16 import TREES, build_tree
+    from .c16 import tree_models
     from ..model import rich_model
     from ..roundtrip import features as all_features
-    models = {k: mb.model(build_tree(mb, spec), []) for k, spec in TREES.items()}
+    models = tree_models(mb)
     models["rich"] = rich_model(mb)
     for name, m in models.items():
         it = Interp(pm)
